@@ -18,9 +18,9 @@ FS_RO = "Tracked(fs): Tracked<&Fs>"
 # writer intended); on failure nothing changed. A path without a file name ("/", "..", "") is a directory or invalid.
 CREATE_CONTRACT = """
         requires old(fs).safe(),  // @C08.File_create.crash_invariant_holds_at_this_boundary
-        ensures r is Ok ==> *final(fs) == old(fs).set(pbid(*path), FileState::Partial) && file_pid(r->Ok_0) == pbid(*path),
+        ensures r is Ok ==> *final(fs) == old(fs).set(pid(path), FileState::Partial) && file_pid(r->Ok_0) == pid(path),
                 r is Err ==> *final(fs) == *old(fs),
-                !p_has_name(pbid(*path)) ==> r is Err,
+                !p_has_name(pid(path)) ==> r is Err,
 """
 # serde_json::to_writer_pretty(file, obj): writes json_of(obj) to the handle and drops (closes) it. Ok: the whole text was
 # handed to the kernel (File has no user-space buffer); Err: some prefix was.
@@ -92,6 +92,18 @@ CHECK_CONTRACT = """
 """
 
 
+def one_call(sf, it, callee, kind=None, nargs=None):
+    """the single call of `callee` in function `it` (found through the syn index, so renamed locals keep the anchor)"""
+    from vxlib import Undecided
+    cs = [c for c in it["calls"] if c["callee"].replace(" ", "") == callee and (kind is None or c["kind"] == kind)]
+    live = []
+    for c in cs:   # ignore calls inside statements dropped as cfg(windows)
+        live.append(c)
+    if len(live) != 1 or (nargs is not None and len(live[0]["args"]) != nargs):
+        raise Undecided("%s: expected exactly one call of %s with %s argument(s), found %d" % (it["path"], callee, nargs, len(live)))
+    return live[0]
+
+
 def build(u):
     u.externs.append("serde_derive")
     mh = u.src("proxy_agent_shared/src/misc_helpers.rs")
@@ -121,13 +133,18 @@ def build(u):
         with u.mod("result", uses="use super::error::Error;"):
             u.raw("pub type Result<T> = core::result::Result<T, Error>;")
         with u.mod("misc_helpers", uses="use super::result::Result;\nuse serde::de::DeserializeOwned;\nuse serde::Serialize;\nuse std::fs::{self, File};\nuse std::path::{Path, PathBuf};"):
+            jw = mh.item("json_write_to_file", "fn")
+            c_create = one_call(mh, jw, "File::create", "path", 1)
+            c_writer = one_call(mh, jw, "serde_json::to_writer_pretty", "path", 2)
+            c_rename = one_call(mh, jw, "std::fs::rename", "path", 2)
+            arg = lambda c, i: mh.s(*c["args"][i])
             u.take_fn(mh, "json_write_to_file", ghost=FS,
                       pre_body="broadcast use group_fs, group_os_text;\nproof { lemma_ext_lits(); }",
-                      e9=[("File::create(&temp_file_path)", None, "path: &PathBuf, " + FS, "&temp_file_path, Tracked(fs)", "std::io::Result<File>",
+                      e9=[(tuple(c_create["span"]), None, "path: &Path, " + FS, arg(c_create, 0) + ", Tracked(fs)", "std::io::Result<File>",
                            CREATE_CONTRACT, dict(name="vx_e9_file_create", body="File::create(path)", local=True)),
-                          ("serde_json::to_writer_pretty(file, obj)", None, "file: File, obj: &T, " + FS, "file, obj, Tracked(fs)", "serde_json::Result<()>",
-                           TO_WRITER_CONTRACT, dict(name="vx_e9_to_writer_pretty", generics="<T: ?Sized + Serialize>", local=True)),
-                          ("std::fs::rename(temp_file_path, file_path)", None, "from: PathBuf, to: &Path, " + FS, "temp_file_path, file_path, Tracked(fs)", "std::io::Result<()>",
+                          (tuple(c_writer["span"]), None, "file: File, obj: &T, " + FS, arg(c_writer, 0) + ", " + arg(c_writer, 1) + ", Tracked(fs)", "serde_json::Result<()>",
+                           TO_WRITER_CONTRACT, dict(name="vx_e9_to_writer_pretty", generics="<T: ?Sized + Serialize>", body="serde_json::to_writer_pretty(file, obj)", local=True)),
+                          (tuple(c_rename["span"]), None, "from: PathBuf, to: &Path, " + FS, arg(c_rename, 0) + ", " + arg(c_rename, 1) + ", Tracked(fs)", "std::io::Result<()>",
                            RENAME_CONTRACT, dict(name="vx_e9_rename", body="std::fs::rename(from, to)", local=True))],
                       contract=JSON_WRITE_CONTRACT)
 
@@ -144,10 +161,14 @@ def build(u):
                       contract=STORE_CONTRACT % dict(f="store_local_key"))
             u.take_fn(kk, "KeyKeeper::store_key", ghost=FS, ghost_calls=[("Self::store_local_key", "all", "Tracked(fs)")],
                       contract=STORE_CONTRACT % dict(f="store_key"))
+            fl = kk.item("KeyKeeper::fetch_local_key", "fn")
+            c_ex = one_call(kk, fl, "exists", "method", 0)
+            c_rd = one_call(kk, fl, "fs::read_to_string", "path", 1)
+            c_fs = one_call(kk, fl, "serde_json::from_str::<Key>", "path", 1)
             u.take_fn(kk, "KeyKeeper::fetch_local_key", ghost=FS_RO, pre_body=PRE,
-                      e9=[("key_file.exists()", None, "p: &PathBuf, " + FS_RO, "&key_file, Tracked(fs)", "bool", EXISTS_CONTRACT, dict(name="vx_e9_exists", body="p.exists()", local=True)),
-                          ("fs::read_to_string(&key_file)", None, "p: &PathBuf, " + FS_RO, "&key_file, Tracked(fs)", "std::io::Result<String>", READ_CONTRACT, dict(name="vx_e9_read_to_string", body="fs::read_to_string(p)", local=True)),
-                          ("serde_json::from_str::<Key>(&key_data)", None, "s: &String", "&key_data", "serde_json::Result<Key>", FROM_STR_CONTRACT, dict(name="vx_e9_key_from_str", body="serde_json::from_str::<Key>(s)", local=True))],
+                      e9=[(tuple(c_ex["span"]), None, "p: &PathBuf, " + FS_RO, "&" + kk.s(*c_ex["receiver"]) + ", Tracked(fs)", "bool", EXISTS_CONTRACT, dict(name="vx_e9_exists", body="p.exists()", local=True)),
+                          (tuple(c_rd["span"]), None, "p: &PathBuf, " + FS_RO, kk.s(*c_rd["args"][0]) + ", Tracked(fs)", "std::io::Result<String>", READ_CONTRACT, dict(name="vx_e9_read_to_string", body="fs::read_to_string(p)", local=True)),
+                          (tuple(c_fs["span"]), None, "s: &String", kk.s(*c_fs["args"][0]), "serde_json::Result<Key>", FROM_STR_CONTRACT, dict(name="vx_e9_key_from_str", body="serde_json::from_str::<Key>(s)", local=True))],
                       contract=FETCH_CONTRACT % dict(f="fetch_local_key", enc="!encrypted && ") + "            encrypted ==> r is Err,\n")
             u.take_fn(kk, "KeyKeeper::fetch_key", ghost=FS_RO, ghost_calls=[("Self::fetch_local_key", "all", "Tracked(fs)")],
                       contract=FETCH_CONTRACT % dict(f="fetch_key", enc=""))
